@@ -46,6 +46,94 @@ SNIPPETS = [
     'x = [0]\nx[0] = 1', 'x = [0]\nx[0] += 1', 'lambda: (yield)', 'raise ValueError from None',
 ]
 
+# ------------------------------------------------------------------------------------------------
+# context x construct sweep: every gated construct isolated inside every nesting context, so that the
+# construct is the ONLY node needing its flag (random programs almost never isolate one).
+EXPR_CONSTRUCTS = {     # expression-level gated constructs -> flag
+    '(w_ := 1)': 'ASSIGN', 'fn_()': 'CALL', '(lambda: 0)': 'FUNCTION_DEFINITION',
+}
+STMT_CONSTRUCTS = {     # statement-level gated constructs (one line or block, indented by the template)
+    'a_ = 1': 'ASSIGN', 'a_ += 1': 'ASSIGN', 'a_: int = 1': 'ASSIGN',
+    'if 1:\n  pass': 'CONDITION', 'match 1:\n  case _:\n    pass': 'CONDITION',
+    'for i_ in ():\n  pass': 'LOOP', 'while 0:\n  pass': 'LOOP',
+    'try:\n  pass\nfinally:\n  pass': 'EXCEPTION', 'try:\n  pass\nexcept* E_:\n  pass': 'EXCEPTION', 'raise E_': 'EXCEPTION', 'assert 1': 'EXCEPTION',
+    'class K_:\n  pass': 'CLASS_DEFINITION', 'def f_():\n  pass': 'FUNCTION_DEFINITION', 'async def g_():\n  pass': 'FUNCTION_DEFINITION',
+    'import m_': 'IMPORT', 'from m_ import n_': 'IMPORT',
+}
+# templates: needs = flags the template itself needs; HOLE is replaced by an expression / STMT by an indented block
+EXPR_CONTEXTS = [
+    ('HOLE', []), ('[HOLE]', []), ('(HOLE, 1)', []), ('{HOLE}', []), ('{1: HOLE}', []), ('{HOLE: 1}', []), ('x_[HOLE]', []), ('x_[HOLE:2]', []),
+    ('x_[1:2:HOLE]', []), ('HOLE.attr', []), ('-HOLE', []), ('not HOLE', []), ('HOLE + 1', []), ('1 < HOLE < 3', []), ('HOLE and 1', []),
+    ('1 if HOLE else 2', []), ('(HOLE if 1 else 2)', []), ('f"{HOLE}"', []), ('f"{1:{HOLE}}"', []), ('f"a{HOLE!r:>4}b"', []), ('[*HOLE]', []), ('{**HOLE}', []),
+    ('[i_ for i_ in HOLE]', []), ('[HOLE for i_ in ()]', []), ('[i_ for i_ in () if HOLE]', []), ('{i_: HOLE for i_ in ()}', []), ('(HOLE for i_ in ())', []),
+    ('{HOLE for i_ in () for j_ in ()}', []), ('del x_[HOLE]', []), ('x_: HOLE', []), ('with HOLE:\n  pass', []), ('with x_ as y_[HOLE]:\n  pass', []),
+    ('global_ = 0\nx_[HOLE] = 1', ['ASSIGN']), ('x_ = HOLE', ['ASSIGN']), ('x_ += HOLE', ['ASSIGN']), ('x_: int = HOLE', ['ASSIGN']), ('x_: HOLE = 1', ['ASSIGN']),
+    ('(v_ := HOLE)', ['ASSIGN']), ('g_(HOLE)', ['CALL']), ('g_(k=HOLE)', ['CALL']), ('g_(*HOLE)', ['CALL']), ('g_(**HOLE)', ['CALL']), ('HOLE(1)', ['CALL']),
+    ('lambda: HOLE', ['FUNCTION_DEFINITION']), ('lambda a=HOLE: a', ['FUNCTION_DEFINITION']), ('lambda *, k=HOLE: k', ['FUNCTION_DEFINITION']),
+    ('def f_(a=HOLE):\n  pass', ['FUNCTION_DEFINITION']), ('def f_(*, k=HOLE):\n  pass', ['FUNCTION_DEFINITION']), ('def f_(a: HOLE):\n  pass', ['FUNCTION_DEFINITION']),
+    ('def f_() -> HOLE:\n  pass', ['FUNCTION_DEFINITION']), ('@HOLE\ndef f_():\n  pass', ['FUNCTION_DEFINITION']), ('def f_():\n  return HOLE', ['FUNCTION_DEFINITION']),
+    ('def f_():\n  yield HOLE', ['FUNCTION_DEFINITION']), ('def f_():\n  yield from HOLE', ['FUNCTION_DEFINITION']), ('async def f_():\n  await HOLE', ['FUNCTION_DEFINITION']),
+    ('async def f_():\n  return [i_ async for i_ in HOLE]', ['FUNCTION_DEFINITION']),
+    ('class C_(HOLE):\n  pass', ['CLASS_DEFINITION']), ('class C_(metaclass=HOLE):\n  pass', ['CLASS_DEFINITION']), ('@HOLE\nclass C_:\n  pass', ['CLASS_DEFINITION']),
+    ('class C_:\n  k = HOLE', ['CLASS_DEFINITION', 'ASSIGN']),
+    ('if HOLE:\n  pass', ['CONDITION']), ('if 0:\n  pass\nelif HOLE:\n  pass', ['CONDITION']), ('match HOLE:\n  case _:\n    pass', ['CONDITION']),
+    ('match 1:\n  case _ if HOLE:\n    pass', ['CONDITION']), ('match 1:\n  case 1:\n    HOLE', ['CONDITION']),
+    ('for i_ in HOLE:\n  pass', ['LOOP']), ('for x_[HOLE] in ():\n  pass', ['LOOP']), ('while HOLE:\n  break', ['LOOP']),
+    ('assert HOLE', ['EXCEPTION']), ('assert 1, HOLE', ['EXCEPTION']), ('raise HOLE', ['EXCEPTION']), ('raise E_ from HOLE', ['EXCEPTION']),
+    ('try:\n  pass\nexcept HOLE:\n  pass', ['EXCEPTION']), ('try:\n  HOLE\nfinally:\n  pass', ['EXCEPTION']),
+    ('type T_ = HOLE', []), ('def f_[T_: HOLE]():\n  pass', ['FUNCTION_DEFINITION']),
+]
+STMT_CONTEXTS = [
+    ('STMT', []), ('if 1:\n  STMT', ['CONDITION']), ('if 0:\n  pass\nelse:\n  STMT', ['CONDITION']), ('match 1:\n  case _:\n    STMT', ['CONDITION']),
+    ('for i_ in ():\n  STMT', ['LOOP']), ('for i_ in ():\n  pass\nelse:\n  STMT', ['LOOP']), ('while 0:\n  STMT', ['LOOP']), ('while 0:\n  pass\nelse:\n  STMT', ['LOOP']),
+    ('try:\n  STMT\nfinally:\n  pass', ['EXCEPTION']), ('try:\n  pass\nexcept E_:\n  STMT', ['EXCEPTION']), ('try:\n  pass\nexcept E_:\n  pass\nelse:\n  STMT', ['EXCEPTION']),
+    ('try:\n  pass\nfinally:\n  STMT', ['EXCEPTION']), ('try:\n  pass\nexcept* E_:\n  STMT', ['EXCEPTION']),
+    ('with x_:\n  STMT', []), ('def f_():\n  STMT', ['FUNCTION_DEFINITION']), ('async def f_():\n  STMT', ['FUNCTION_DEFINITION']),
+    ('class C_:\n  STMT', ['CLASS_DEFINITION']), ('async def f_():\n  async with x_:\n    STMT', ['FUNCTION_DEFINITION', 'LOOP']),
+    ('async def f_():\n  async for i_ in x_:\n    STMT', ['FUNCTION_DEFINITION', 'LOOP']),
+]
+
+def _fill_stmt(tmpl, block):
+  out = []
+  for line in tmpl.split('\n'):
+    if line.strip() == 'STMT':
+      ind = line[:len(line) - len(line.lstrip())]
+      out += [ind + l for l in block.split('\n')]
+    else:
+      out.append(line)
+  return '\n'.join(out)
+
+def context_sweep(rng, depth2):
+  """Yields (source, construct_flag, template_flags)."""
+  progs = []
+  for c, cf in EXPR_CONSTRUCTS.items():
+    for t, tf in EXPR_CONTEXTS:
+      progs.append((t.replace('HOLE', c), cf, tf))
+  for c, cf in STMT_CONSTRUCTS.items():
+    for t, tf in STMT_CONTEXTS:
+      progs.append((_fill_stmt(t, c), cf, tf))
+  # expression construct inside an expression context inside a statement context, and two expression contexts deep
+  for _ in range(depth2):
+    c, cf = rng.choice(list(EXPR_CONSTRUCTS.items()))
+    (t1, f1), (t2, f2) = rng.choice(EXPR_CONTEXTS), rng.choice(EXPR_CONTEXTS)
+    inner = t1.replace('HOLE', c)
+    if '\n' in inner or not _is_expr(inner):
+      (t3, f3) = rng.choice(STMT_CONTEXTS)
+      progs.append((_fill_stmt(t3, inner), cf, f1 + f3))
+    else:
+      progs.append((t2.replace('HOLE', '(' + inner + ')'), cf, f1 + f2))
+  for _ in range(depth2):
+    c, cf = rng.choice(list(STMT_CONSTRUCTS.items()))
+    (t1, f1), (t2, f2) = rng.choice(STMT_CONTEXTS), rng.choice(STMT_CONTEXTS)
+    progs.append((_fill_stmt(t2, _fill_stmt(t1, c)), cf, f1 + f2))
+  return progs
+
+def _is_expr(src):
+  try:
+    ast.parse(src, mode='eval'); return True
+  except SyntaxError:
+    return False
+
 class Gen:
   """Random, terminating, mostly side-effect free programs with deep nesting."""
   def __init__(self, rng):
@@ -319,6 +407,21 @@ def run(ctx):
         subsets.add(ALL & ~(1 << fidx[f])); subsets.add(need_bits & ~(1 << fidx[f]))
     for bits in sorted(subsets):
       cases.append((dict(code=src, bits=bits), [0, bits, conv(t, kidx)], 'random'))
+  # (E) context x construct sweep (parse level): construct isolated in every nesting context;
+  #     permissions: everything but the construct's flag, and exactly what the context itself needs
+  fidx = {f: i for i, f in enumerate(flag_order)}
+  nsweep = 0
+  for src, cf, tf in context_sweep(rng, ctx.scale(150, 3000)):
+    try:
+      t = ast.parse(src)
+    except SyntaxError:
+      ctx.hist('generator', 'context-sweep-syntax-error'); continue
+    if cf not in fidx: continue
+    tbits = sum(1 << fidx[f] for f in set(tf) if f in fidx)
+    for bits in sorted({ALL & ~(1 << fidx[cf]), tbits & ~(1 << fidx[cf]), tbits | (1 << fidx[cf]), ALL}):
+      cases.append((dict(code=src, bits=bits), [0, bits, conv(t, kidx)], 'context-sweep'))
+    nsweep += 1
+  ctx.extra['context_sweep_programs'] = nsweep
   # (C) nested scopes
   scope_cases = []
   for _ in range(ctx.scale(60, 600)):
